@@ -588,7 +588,10 @@ impl Tokenizer {
                 .start;
             self.model
                 .encode_with_offsets(chunk, &mut |offset, token| {
-                    offsets.push(start_offset + base_offset + map_offset(offset));
+                    // `offset` is relative to `chunk`, which starts at
+                    // `base_offset` in the normalized text. Translate the
+                    // position in the normalized text to the source text.
+                    offsets.push(start_offset + map_offset(base_offset + offset));
                     tokens.push(token);
                 })?;
         }
@@ -657,9 +660,19 @@ impl Tokenizer {
             // `max_seq_len` tokens each.
             EncoderInput::Item(item) => {
                 let all_offsets = &offsets;
+
+                // If all tokens fit in one chunk the overlap has no effect.
+                // Ignore it rather than tripping the `overlap < chunk_size`
+                // precondition of `chunks_with_overlap`.
+                let overlap = if tokens.len() <= max_tokens_per_chunk {
+                    0
+                } else {
+                    options.overlap
+                };
+
                 for (chunk_idx, (tokens_chunk, offsets_chunk)) in tokens
-                    .chunks_with_overlap(max_tokens_per_chunk, options.overlap)
-                    .zip(offsets.chunks_with_overlap(max_tokens_per_chunk, options.overlap))
+                    .chunks_with_overlap(max_tokens_per_chunk, overlap)
+                    .zip(offsets.chunks_with_overlap(max_tokens_per_chunk, overlap))
                     .enumerate()
                 {
                     let mut tokens = Vec::new();
@@ -710,9 +723,17 @@ impl Tokenizer {
                     return Ok(vec![]);
                 }
 
+                // As above, the overlap is irrelevant if the second sequence
+                // fits in one chunk.
+                let overlap = if second_tokens.len() <= second_len {
+                    0
+                } else {
+                    options.overlap
+                };
+
                 for (chunk_idx, (tokens_chunk, offsets_chunk)) in second_tokens
-                    .chunks_with_overlap(second_len, options.overlap)
-                    .zip(second_offsets.chunks_with_overlap(second_len, options.overlap))
+                    .chunks_with_overlap(second_len, overlap)
+                    .zip(second_offsets.chunks_with_overlap(second_len, overlap))
                     .enumerate()
                 {
                     let mut tokens = Vec::new();
